@@ -19,10 +19,12 @@ CONSTANTS
   Order <- OrderAsIs
   CheckAccepts = TRUE
   SimCommits = FALSE
+  NextTwoLoads = FALSE
 SYMMETRY Sym
 INVARIANT VisibleImpliesComplete
 INVARIANT PublishedComplete
 INVARIANT FinalizedMonotonePerReader
+INVARIANT NextIsOneSnapshot
 INVARIANT NoQueryWrites
 INVARIANT DurableBehindMemory
 PROPERTY QueriesAreReadOnly
